@@ -5,6 +5,7 @@ import SdJwt.Lemmas.Assoc
 import SdJwt.Lemmas.IssueAll
 import SdJwt.Lemmas.RefSound
 import SdJwt.Lemmas.MarkInv
+import SdJwt.Lemmas.CodecL
 /-!
 # C07 — issued SD-JWTs are spec-conformant as judged by an independent verifier
 
@@ -159,3 +160,25 @@ theorem C07_issued_ref (mk : Nat → Option String → J → String) (addr : Lis
   · intro hh
     have h1 : p.1.digest ∈ T.digests := MJ.deepStale_sub_digests T _ (hst _ hh)
     exact (List.nodup_append.mp hndd).2.2 p.1.digest (List.mem_map_of_mem (hsub p hp)) p.1.digest h1 rfl
+
+
+/-- **the form of a disclosure string and of its digest**, with base64url in the model: the string
+`Disclosure::build` makes is the base64url encoding of the JSON text of `[salt, name, value]` /
+`[salt, value]` — decoding it gives back exactly those bytes —, it is unpadded (no `=`), holds none
+of the framing characters `~` and `.`, and its digest is the base64url of the hash of the string
+itself under the named algorithm; `Disclosure::from_base64` reads the same name and value back -/
+theorem C07_disclosure_string_form (c : Codec) (alg salt : String) (key : Option String) (v : J) :
+    B64.dec (c.discString salt key v).toList = some (c.render (discJson salt key v)) ∧
+    '=' ∉ (c.discString salt key v).toList ∧ '~' ∉ (c.discString salt key v).toList ∧
+    '.' ∉ (c.discString salt key v).toList ∧
+    c.hash alg (c.discString salt key v) =
+      String.ofList (B64.enc (c.sha alg (utf8 (c.discString salt key v)))) ∧
+    ((∀ j, c.parse (c.render j) = some j) → (∀ k, key = some k → ¬(k = "_sd" ∨ k = "...")) →
+      fromBase64 (c.env alg) (c.discString salt key v) =
+        .ok ⟨c.discString salt key v, c.hash alg (c.discString salt key v), key, v⟩) := by
+  refine ⟨?_, ?_, ?_, ?_, rfl, ?_⟩
+  · simp [Codec.discString, String.toList_ofList, B64.dec_enc]
+  · simp only [Codec.discString, String.toList_ofList]; exact B64.enc_no_pad _
+  · exact discString_no_tilde c salt key v
+  · simp only [Codec.discString, String.toList_ofList]; exact B64.enc_no_dot _
+  · intro hc hk; exact fromBase64_discString c hc alg salt key v hk
